@@ -21,7 +21,7 @@ import ast
 from .astutil import params_of, docstring_free
 from .loader import AnalysisError, unparse, mangle
 
-MAX_PATHS = 256
+MAX_PATHS = 2048
 MAX_DEPTH = 12
 MAX_STEPS = 200000
 
